@@ -581,14 +581,15 @@ func (g *cstGen) file() cFile {
 }
 
 type cstStats struct {
-	Cases        int            `json:"cases"`
-	Nontrivial   int            `json:"distinct_nontrivial"`
-	Features     map[string]int `json:"layout_features"`
-	Stmts        map[string]int `json:"statements_per_file"`
-	Outcomes     map[string]int `json:"impl_outcomes"`
-	Samples      []string       `json:"samples"`
-	OracleFail   map[string]int `json:"oracle_failures"`
-	CommentItems int            `json:"comment_and_docstring_items_checked_textually"`
+	Cases          int            `json:"cases"`
+	Nontrivial     int            `json:"distinct_nontrivial"`
+	Features       map[string]int `json:"layout_features"`
+	Stmts          map[string]int `json:"statements_per_file"`
+	Outcomes       map[string]int `json:"impl_outcomes"`
+	Samples        []string       `json:"samples"`
+	OracleFail     map[string]int `json:"oracle_failures"`
+	CommentItems   int            `json:"comment_and_docstring_items_checked_textually"`
+	UnicodeLayouts int            `json:"files_also_parsed_with_unicode_spaces_in_the_layout_implementation_only"`
 }
 
 func cstCmd(args []string) error {
@@ -669,6 +670,22 @@ func cstCmd(args []string) error {
 				}
 			}
 		}
+		// one case in eight: the same structure laid out with Unicode spaces must parse to the same structure
+		if ok && got == want && k%8 == 3 {
+			vt := uniLayout(f, g.r).render()
+			if vt != text {
+				st.UnicodeLayouts++
+				if vresp, vok := wk.ask(hx(vt)); vok {
+					if vf := fieldsOf(vresp); len(vf) >= 2 && vf[1] != want {
+						st.OracleFail["C06"]++
+						fmt.Fprintf(bo, "C06 %s with Unicode spaces in its layout this text parses to %s, the structure written is %s\n", hx(vt), vf[1], want)
+					}
+				} else {
+					wk.stop()
+					wk = nil
+				}
+			}
+		}
 		if got != want {
 			st.OracleFail["C06"]++
 			fmt.Fprintf(bo, "C06 %s parsing the text written from this structure gives %s, the structure written is %s\n", hx(text), got, want)
@@ -685,6 +702,47 @@ func cstCmd(args []string) error {
 	fo.Close()
 	sj, _ := json.Marshal(st)
 	return os.WriteFile(filepath.Join(*out, fmt.Sprintf("stats.%d.json", *shard)), sj, 0o644)
+}
+
+// uniLayout: the same file with the blanks of its layout (never those inside strings, comments or commands) replaced by Unicode
+// spaces outside ASCII - the lexer skips "any utf-8 whitespace" between tokens, so this is the same structure in another layout
+// (a layout outside the class the round-trip theorem covers: checked on the implementation only)
+func uniLayout(f cFile, r *rand.Rand) cFile {
+	sp := []string{"\u3000", "\u2003", "\u00a0", "\u2028", "\u1680", "\u205f"}
+	u := func(w string) string {
+		var b strings.Builder
+		for _, c := range w {
+			if c == ' ' && r.Intn(2) == 0 {
+				b.WriteString(sp[r.Intn(len(sp))])
+			} else {
+				b.WriteRune(c)
+			}
+		}
+		return b.String()
+	}
+	ua := func(a cArgs) cArgs {
+		o := cArgs{ws: u(a.ws)}
+		for _, i := range a.items {
+			i.ws, i.cws = u(i.ws), u(i.cws)
+			o.items = append(o.items, i)
+		}
+		return o
+	}
+	g := cFile{ws: u(f.ws)}
+	for _, s := range f.stmts {
+		s.w1, s.w2, s.w3, s.docw, s.wt, s.wn, s.wd, s.gap = u(s.w1), u(s.w2), u(s.w3), u(s.docw), u(s.wt), u(s.wn), u(s.wd), u(s.gap)
+		s.args, s.deps = ua(s.args), ua(s.deps)
+		s.outs.w1, s.outs.w2, s.outs.args = u(s.outs.w1), u(s.outs.w2), ua(s.outs.args)
+		bd := s.body
+		bd.ws = u(bd.ws)
+		bd.cmds = nil
+		for _, l := range s.body.cmds {
+			bd.cmds = append(bd.cmds, cLine{l.c, u(l.w)})
+		}
+		s.body = bd
+		g.stmts = append(g.stmts, s)
+	}
+	return g
 }
 
 func fieldsOf(resp string) []string { return strings.Split(strings.SplitN(resp, "\t", 2)[0], " ## ") }
@@ -840,6 +898,14 @@ func fmtCLI(spok, out string, seed int64, shard int, tier string, st *cstStats, 
 		proj := filepath.Join(tmp, fmt.Sprintf("p%d", k))
 		os.MkdirAll(proj, 0o755)
 		os.WriteFile(filepath.Join(proj, "spokfile"), []byte(src), 0o644)
+		// leftovers with names a formatter might use for scratch copies, longer than anything it will write: they are none of its business
+		junk := strings.Repeat("# leftover from some other tool  \n", 40+len(src)/10)
+		decoys := []string{"spokfile.tmp", ".spokfile.tmp", "spokfile.bak", "spokfile~", ".spokfile.swp", "spokfile.new"}
+		for di, d := range decoys {
+			if (k+di)%2 == 0 {
+				os.WriteFile(filepath.Join(proj, d), []byte(junk), 0o644)
+			}
+		}
 		cmd := exec.Command(spok, "--fmt")
 		cmd.Dir = proj
 		cmd.Env = []string{"HOME=" + tmp, "PATH=/usr/bin:/bin"}
@@ -849,6 +915,25 @@ func fmtCLI(spok, out string, seed int64, shard int, tier string, st *cstStats, 
 		}
 		st.Features["fmt_cli_runs"]++
 		got, _ := os.ReadFile(filepath.Join(proj, "spokfile"))
+		// formatting the formatted file once more through the command line changes nothing (C11), and the leftovers are as they were
+		cmd2 := exec.Command(spok, "--fmt")
+		cmd2.Dir = proj
+		cmd2.Env = cmd.Env
+		if err := cmd2.Run(); err != nil {
+			st.OracleFail["C11"]++
+			fmt.Fprintf(bo, "C11 %s `spok --fmt` a second time failed: %v (the file now holds %q)\n", hx(src), err, string(got))
+		} else if got2, _ := os.ReadFile(filepath.Join(proj, "spokfile")); string(got2) != string(got) {
+			st.OracleFail["C11"]++
+			fmt.Fprintf(bo, "C11 %s `spok --fmt` twice leaves %q, once leaves %q\n", hx(src), string(got2), string(got))
+		}
+		for di, d := range decoys {
+			if (k+di)%2 == 0 {
+				if b, err := os.ReadFile(filepath.Join(proj, d)); err != nil || string(b) != junk {
+					st.OracleFail["C19"]++
+					fmt.Fprintf(bo, "C19 %s `spok --fmt` changed or removed %s, a file next to the spokfile that is none of its business\n", hx(src), d)
+				}
+			}
+		}
 		if string(got) != want.tree.String() {
 			st.OracleFail["C07"]++
 			fmt.Fprintf(bo, "C07 %s `spok --fmt` left %q in the file, the formatter gives %q for the parsed tree\n", hx(src), string(got), want.tree.String())
